@@ -160,7 +160,8 @@ class IntraTransaction(AbstractTransaction):
         return self.fiat_fee
 
     def is_taxable(self) -> bool:
-        return self.fiat_fee > ZERO
+        # The crypto fee is what leaves the holder: testing the fiat fee would skip fees whose fiat value is below precision
+        return self.crypto_fee > ZERO
 
     def is_earning(self) -> bool:
         return False
